@@ -4,12 +4,29 @@ import time
 from vlib.common import finish
 from vlib.bounded import Bounded
 from harness import c19 as driver
+from checks._proof import proof_subobligations
 
 PROP = 'C19'
 
 
+def classify(oid, attempt):
+    """identity of a failing input class of a proof obligation (matched against known_findings.json)"""
+    if attempt is None:
+        return oid
+    inp = attempt.get('inputs') or {}
+    if oid.endswith('default_command.default_inserted'):
+        argv = inp.get('args') or []
+        cps = [k for k, _ in ((inp.get('self') or {}).get('fields', {}).get('command_parsers', {}).get('__dict__') or [])]
+        names = ((inp.get('self') or {}).get('fields', {}).get('_commands_names')) or []
+        if argv and argv[0] in cps and argv[0] not in names:
+            return oid + ':first-argument-is-internal-option-set-name'
+        return oid + ':other'
+    return oid
+
+
 def run():
     t0 = time.time()
+    pv, pu, pe, ppart, passumed = proof_subobligations(PROP, ['contracts.c19_cli'], ['ak.cli_tools'], classify)
     b = Bounded(PROP, 'harness.c19')
     driver.run(b)
     n = 4 if b.tier == 'quick' else 5
@@ -20,6 +37,12 @@ def run():
              f"parser + one global option parsed for every (command, option) pair with real argparse, default-command "
              f"vectors. non-trivial = some command has >= 2 parents",
         exhaustive=True)
-    return finish(PROP, 'exploration', b.violations(), [], b.errors, cov,
+    cov.update(ppart)
+    _seen, _viol = set(), []
+    for _v in pv + b.violations():
+        if _v.key not in _seen:
+            _seen.add(_v.key)
+            _viol.append(_v)
+    return finish(PROP, 'exploration', _viol, pu, pe + b.errors, cov, passumed +
                   ["argparse accepts an option on a sub-parser iff it was added to it (library, exercised for real)",
                    "bounded: declarations of at most %d commands" % n], t0)
